@@ -827,6 +827,11 @@ class ExcelCompiler:
             self._gen_graph(address)
             cell_range = self.cell_map[address]
 
+        if not (isinstance(cell_range, _CellRange) or
+                cell_range.address.is_unbounded_range):
+            # a range (eg: an intersection) which is a single cell
+            return self._evaluate(address)
+
         if cell_range.needs_calc:
             self.log.debug(f"Evaluating: {cell_range.address}, {cell_range.python_code}")
             if cell_range.address.is_unbounded_range:
